@@ -90,6 +90,9 @@ def gen_config(rng, tier):
         prefixes=bool(rng.random() < 0.5) if n_coll > 1 else bool(rng.random() < 0.3),
         fmt=str(rng.choice([".pin", ".pin", ".parquet"])),
         eval_fdr=float(rng.choice([0.01, 0.1, 0.5])),
+        # rows per streaming chunk (0 = default of 1e6, i.e. one chunk): with several chunks the PSMs of one spectrum
+        # reach the competition loop of assign_confidence instead of being pre-filtered per chunk
+        chunk=int(rng.choice([0, 0, 1, 2, 3, 5, 8])),
         seed=int(rng.integers(1 << 30)))
     return cfg
 
@@ -244,10 +247,17 @@ def run_assign(cfg, tables, d, assign=None, peps="qvality"):
     out = Path(d) / "out"
     out.mkdir()
     prefixes = [("c%d" % k if cfg["prefixes"] else None) for k in range(len(tables))]
-    assign(psms=dss, max_workers=1, scores=[np.array(sc, dtype=float) for _, sc in tables],
-           descs=[True] * len(tables), eval_fdr=cfg["eval_fdr"], dest_dir=out, prefixes=prefixes,
-           decoys=cfg["decoys"], deduplication=cfg["dedup"], do_rollup=cfg["rollup"], rng=cfg["seed"] % 1000,
-           peps_algorithm=peps)
+    import mokapot.confidence as conf
+    saved = conf.CONFIDENCE_CHUNK_SIZE
+    if cfg.get("chunk"):
+        conf.CONFIDENCE_CHUNK_SIZE = cfg["chunk"]
+    try:
+        assign(psms=dss, max_workers=1, scores=[np.array(sc, dtype=float) for _, sc in tables],
+               descs=[True] * len(tables), eval_fdr=cfg["eval_fdr"], dest_dir=out, prefixes=prefixes,
+               decoys=cfg["decoys"], deduplication=cfg["dedup"], do_rollup=cfg["rollup"], rng=cfg["seed"] % 1000,
+               peps_algorithm=peps)
+    finally:
+        conf.CONFIDENCE_CHUNK_SIZE = saved
     return out, prefixes
 
 
@@ -327,7 +337,8 @@ def check_assign(tier, seed, n_cases=None):
     ck = Check("assign_confidence_levels", "mokapot.confidence.assign_confidence",
                "random: %d configurations (seed %d), 1-3 collections of 8-30 PSMs each (a collection grows by one "
                "row per 40 rejected draws), spectrum multiplicity 1-3, 0-2 extra level columns, "
-               "de-dup/rollup/decoys/prefixes on and off, CSV and Parquet input, tie-free scores, max_workers=1, "
+               "de-dup/rollup/decoys/prefixes on and off, CSV and Parquet input, CONFIDENCE_CHUNK_SIZE in "
+               "{default,1,2,3,5,8}, tie-free scores, max_workers=1, "
                "qvality PEPs (values not checked)" % (n, seed),
                "tables from gen_table/gen_scores; oracle = best PSM per spectrum key, then best retained PSM per "
                "entity, C01 formula on the retained rows; non-trivial = in some collection a spectrum has several "
